@@ -305,9 +305,15 @@ MaskUnmapped(M, obj) == St([n \in DOMAIN obj.f |-> IF n \in Unmapped(M, obj) THE
 \* C05  null and unknown reset the target, whatever it held; excluded fields untouched
 
 RECURSIVE C05Sites(_, _, _, _)
+PrimElemZero(F, x) == IF F.nullable THEN x.t = "nil" ELSE x.t = "s" /\ x.s \in ZeroSet(F.cls)
 C05Elems(F, a, s) ==
-  \* known list / map of messages: null / unknown element => nil or zero struct; known => recurse
-  IF F.kind = "objlist" /\ a.k = "list" /\ Known(a) /\ s.t = "seq" /\ Len(s.e) = Len(a.elems) THEN
+  \* known list / map: a null / unknown ELEMENT yields the zero value (nil pointer, zero struct), whatever its
+  \* neighbours hold; known message elements are entered
+  IF F.kind = "primlist" /\ a.k = "list" /\ Known(a) /\ s.t = "seq" /\ Len(s.e) = Len(a.elems) THEN
+     UNION { IF a.elems[j].k = "prim" /\ ~Known(a.elems[j]) /\ ~PrimElemZero(F, s.e[j]) THEN {V("C05.reset.element", F, "")} ELSE {} : j \in DOMAIN a.elems }
+  ELSE IF F.kind = "primmap" /\ a.k = "map" /\ Known(a) /\ s.t = "map" THEN
+     UNION { IF a.mels[key].k = "prim" /\ ~Known(a.mels[key]) /\ key \in DOMAIN s.m /\ ~PrimElemZero(F, s.m[key]) THEN {V("C05.reset.element", F, "")} ELSE {} : key \in DOMAIN a.mels }
+  ELSE IF F.kind = "objlist" /\ a.k = "list" /\ Known(a) /\ s.t = "seq" /\ Len(s.e) = Len(a.elems) THEN
      UNION { LET e == a.elems[j] x == s.e[j]
              IN IF e.k # "obj" THEN {}
                 ELSE IF ~Known(e) THEN (IF (F.nullable /\ x.t = "nil") \/ (~F.nullable /\ NFg(x) = NFg(SubOf(F).zero)) THEN {} ELSE {V("C05.reset.element", F, "")})
